@@ -184,7 +184,7 @@ class Repo:
                             except FileNotFoundError:
                                 # no datastore record at all (never stored) vs. a record whose artifact is gone
                                 try:
-                                    known = bool(butler.exists(r, full_check=False) & DatasetExistence.DATASTORE)
+                                    known = (butler.exists(r, full_check=False) & DatasetExistence.DATASTORE) == DatasetExistence.DATASTORE
                                 except Exception as e:  # noqa: BLE001
                                     perr("exists", e)
                                     known = True
